@@ -8,10 +8,12 @@ import json, os, re, subprocess, sys, time, shutil, hashlib, concurrent.futures
 
 VERIF = os.path.dirname(os.path.dirname(os.path.abspath(__file__)))
 SPEC = os.path.join(VERIF, "spec")
-HARNESS = os.path.join(VERIF, "harness")
-WORK = os.path.join(VERIF, "work")
-EVID = os.path.join(VERIF, "evidence")
-REPO = "/repo"
+# The registered commands always run on /repo with /verif's own harness.  The overrides exist only so that bin/seedflow.py can
+# run a check against a scratch worktree carrying a seeded change, in parallel, without touching /repo.
+HARNESS = os.environ.get("VERIF_HARNESS_DIR", os.path.join(VERIF, "harness"))
+WORK = os.environ.get("VERIF_WORK_DIR", os.path.join(VERIF, "work"))
+EVID = os.environ.get("VERIF_EVID_DIR", os.path.join(VERIF, "evidence"))
+REPO = os.environ.get("VERIF_REPO_DIR", "/repo")
 TLAJAR = "/opt/veriftools/tla/tla2tools.jar:/opt/veriftools/tla/CommunityModules-deps.jar"
 HARNESS_BIN = os.path.join(HARNESS, "target", "debug", "nq-harness")
 CLI_TARGET = os.path.join(HARNESS, "target", "cli")
@@ -328,7 +330,7 @@ def finish(res):
     os.makedirs(EVID, exist_ok=True)
     replay = None
     if unknown:
-        rdir = os.path.join(VERIF, "work", "replay")
+        rdir = os.path.join(WORK, "replay")
         os.makedirs(rdir, exist_ok=True)
         replay = os.path.join(rdir, "%s_%s_%d.json" % (res.pid, res.tier, res.seed))
         with open(replay, "w") as f:
